@@ -31,6 +31,7 @@ THEOREMS = [
     "delete_where_exact",
     "delete_where_through_child_spares_plain_parents",
     "reject_either_route_same",
+    "lookup_apis_agree",
     "layering_shape_irrelevant",
     "invariant_for_every_path",
     "create_through_child_exists_in_both_for_every_path",
@@ -152,7 +153,7 @@ def describe(case, impl, model, spec):
         d["impl_vs_spec"] = diff_fields(si[ds] if ds < len(si) else "", ss[ds] if ds < len(ss) else "")
     if dm is not None:
         d["impl_vs_model"] = diff_fields(si[dm] if dm < len(si) else "", sm[dm] if dm < len(sm) else "")
-    d["legend"] = ("ops: c/<store>/<id>/<name>/<roles>/<child> create, u/…/<checker> update or patch, d/<store>/<id> DeleteById, w/<store>/<filter> DeleteWhere; name 9 and more than three roles are refused by the parent strategy (invalid:name / invalid:roles); per transaction: <results> commit|abort E <store><c|u|d><id> (entity events delivered) F <store>.<id>=name/roles/child (FindById) Q <store>.<query>=ids "
+    d["legend"] = ("ops: c/<store>/<id>/<name>/<roles>/<child> create, u/…/<checker> update or patch, d/<store>/<id> DeleteById, w/<store>/<filter> DeleteWhere; name 9 and more than three roles are refused by the parent strategy (invalid:name / invalid:roles); per transaction: <results> commit|abort E <store><c|u|d><id> (entity events delivered) F <store>.<id>=name/roles/child (FindById) L <store>.<id>=<LoadById>|<LoadEntity>|<P: IsEntityPresent><B: GetEntityBucket != nil> Q <store>.<query>=ids "
                    "(QueryIds true, name=v1, anyOf(roles)=r1, true sort by name) I <store>.i / .v (IterateIds / IterateValidIds) "
                    "X n.<v> r.<v> c.<v> (index reads) D bucket dump; stores 0=A 1=A1(plain child) 2=A2(extended child); "
                    "k cases end with a segment K <item>=<observation>: <store>/i|v/<filter>/<steps> = Current() (- invalid) after opening the "
@@ -168,7 +169,7 @@ RULE = ("histories of 4-12 transactions (1-3 operations each; first error aborts
         "with shared-field values the parent entity strategy refuses mixed in (reserved name 1 in 20, four roles 1 in 14) issued through the parent store A, the plain "
         "child store A1 and the extended child store A2 over 4 ids (+ blank), 4 names (+ empty), 3 roles, child values "
         "nil/empty/4 values; 54 fixed route-pair histories + random ones (every history may, and 1 in 6 creates "
-        "deliberately seek to, create through a child store over an existing parent-only id); after every transaction the entity events delivered to the three stores' listeners, FindById x 3 stores x 4 ids, 4 queries x 3 stores, "
+        "deliberately seek to, create through a child store over an existing parent-only id); after every transaction the entity events delivered to the three stores' listeners, FindById / LoadById / LoadEntity / IsEntityPresent / GetEntityBucket x 3 stores x 4 ids, 4 queries x 3 stores, "
         "IterateIds/IterateValidIds x 3 stores, 12 index reads and the full boltz.Traverse dump are compared; "
         "cursor cases (k): every population of 4 (thorough: 5) ids over {absent, plain parent, A1 data, A2 data, both} + run-structured random "
         "populations of 8 ids (runs of 0-4 ids without extension data between, before and after entities with it; 1 in 3 followed by 1-3 ordinary "
@@ -366,7 +367,7 @@ def run(ctx, replay_cases=None):
         "impl_vs_spec_disagreements": len(spec_bad),
         "impl_vs_model_disagreements": ncorr,
         "histogram": histogram(lines, impl),
-        "observations_per_transaction": 12 + 12 + 6 + 12 + 1,
+        "observations_per_transaction": 12 + 48 + 12 + 6 + 12 + 1,
     })
     ctx.obligation("correspondence: implementation output = model output on every generated history", ncorr == 0,
                    f"{ncorr} disagreement(s)")
